@@ -252,7 +252,7 @@ def main(tier):
             run.stats.merge(stats)
         from vf import fuzz
 
-        fuzz.run_atheris(run, "c01", runs=200000)
+        fuzz.run_atheris(run, "c01", runs=40000)
     return run.finish()
 
 
